@@ -627,7 +627,7 @@ static void fieldCase(Rng& r, Ctx& c, int sim, int variant)
       cs.sig += ":nugget";
     }
     cs.nbtuba = r.pick(std::vector<int>{100, 200});
-    cs.R      = th ? 8000 : 1200;
+    cs.R      = th ? 6000 : 1200;
     cs.batch  = 20;
     cs.sig += fmt(":nbt=%d", cs.nbtuba);
   }
@@ -655,7 +655,7 @@ static void fieldCase(Rng& r, Ctx& c, int sim, int variant)
     cs.model.means.assign(nvar, 0.);
     for (auto& m : cs.model.means) m = (r.coin() ? 1 : -1) * r.uni(3., 30.) * std::sqrt(sill);
     cs.nbtuba = r.pick(std::vector<int>{100, 200});
-    cs.R      = th ? 8000 : 1200;
+    cs.R      = th ? 6000 : 1200;
     cs.batch  = 20;
     cs.sig    = fmt("simtub:points:ndim=%d:nvar=%d:c0=%s:sill%s:nbt=%d", ndim, nvar, t.c_str(), sill < 1 ? "<1" : ">1", cs.nbtuba);
     if (nvar == 2) cs.sig += rho > 0 ? ":rho+" : ":rho-";
@@ -689,7 +689,7 @@ static void fieldCase(Rng& r, Ctx& c, int sim, int variant)
     }
     support += variant == 0 ? ":sill=1" : ":sill!=1";
     cs.ns    = r.pick(std::vector<int>{100, 400});
-    cs.R     = th ? 8000 : 1200;
+    cs.R     = th ? 6000 : 1200;
     cs.batch = 20;
     cs.sig += fmt(":ns=%d", cs.ns);
   }
@@ -962,8 +962,10 @@ static void lawCase(Rng& r, Ctx& c, int which)
       break;
     }
     case 5:
+    case 11:
     {
-      double lam = r.pick(std::vector<double>{0.5, 3., 10., 15.9, 16., 20., 50., 200.});
+      // law_poisson switches algorithm at parameter 16 (Law.cpp: "while (t >= 16)")
+      double lam = which == 5 ? r.pick(std::vector<double>{0.5, 3., 10., 15.9}) : r.pick(std::vector<double>{16., 20., 50., 200.});
       L.name = fmt("law_poisson(%g)", lam);
       L.key  = lam < 16 ? "law_poisson:lambda<16" : "law_poisson:lambda>=16";
       L.draw = [lam]() { return (double)law_poisson(lam); };
@@ -1122,7 +1124,7 @@ static void run_case(Rng& r, Ctx& c)
     case 9: fieldCase(r, c, S_SPECTRAL, (int)((c.icase / 16) % 2)); break;
     case 10: fieldCase(r, c, S_CHOL, (int)((c.icase / 16) % 5)); break;
     case 11: fieldCase(r, c, S_SPDE, 0); break;
-    default: lawCase(r, c, (int)((c.icase / 16 * 4 + (slot - 12)) % 11)); break;
+    default: lawCase(r, c, (int)((c.icase / 16 * 4 + (slot - 12)) % 12)); break;
   }
 }
 
